@@ -9,8 +9,8 @@ Open Scope N_scope.
 Lemma is_blank_nil : is_blank [] = true.
 Proof. reflexivity. Qed.
 
-Lemma splitlines_nl_cons rest : splitlines (nl ++ rest) = [] :: splitlines rest.
-Proof. apply (splitlines_line [] rest). reflexivity. Qed.
+Lemma split_lines_nl_cons rest : split_lines (nl ++ rest) = [] :: split_lines rest.
+Proof. apply (split_lines_line [] rest). reflexivity. Qed.
 
 (* ---- layout 1: the body directly after the opening line ---- *)
 Lemma split_none (X : list str) x X' :
@@ -23,7 +23,7 @@ Lemma split_none (X : list str) x X' :
 Proof.
   intros HX Hsf Hb Hd Hc. unfold parse_directive_text, parse_directive_options.
   cbn [d_optspec adm_class]. rewrite Hd, Hc.
-  rewrite (splitlines_unlines X Hsf). rewrite Nat.sub_diag.
+  rewrite (split_lines_unlines X Hsf). rewrite Nat.sub_diag.
   subst X. simpl. rewrite Hb. reflexivity.
 Qed.
 
@@ -41,7 +41,7 @@ Proof.
   replace (lstrip ([] ++ nl ++ unlines X)) with (lstrip (unlines X)) by reflexivity.
   rewrite Hc.
   change ([] ++ nl ++ unlines X) with (nl ++ unlines X).
-  rewrite splitlines_nl_cons. rewrite (splitlines_unlines X Hsf). rewrite Nat.sub_diag.
+  rewrite split_lines_nl_cons. rewrite (split_lines_unlines X Hsf). rewrite Nat.sub_diag.
   destruct X; [congruence|]. reflexivity.
 Qed.
 
@@ -78,7 +78,7 @@ Proof.
   replace (startswith (c_colon :: r) dashes3) with false by reflexivity.
   replace (lstrip (c_colon :: r)) with (c_colon :: r) by reflexivity.
   replace (startswith (c_colon :: r) [c_colon]) with true by (simpl; destruct r; reflexivity).
-  rewrite <- Hr. rewrite (splitlines_unlines _ Hsf). rewrite span_opts_colon.
+  rewrite <- Hr. rewrite (split_lines_unlines _ Hsf). rewrite span_opts_colon.
   rewrite app_length, map_length. cbn [length].
   match goal with
   | |- context [(?a + ?b - ?c)%nat] =>
@@ -103,3 +103,132 @@ Example nested_calls_example :
   = Ok [(false, [58; 58; 58; 123; 116; 105; 112; 125; 10; 104; 105; 10; 58; 58; 58], 3%nat);
         (false, [104; 105], 4%nat)].
 Proof. vm_compute. reflexivity. Qed.
+
+(* ---- layout 4: "---" / yaml lines / "---", for every body ---- *)
+Lemma startswith_nil_r s : startswith s [] = true.
+Proof. destruct s; reflexivity. Qed.
+
+Lemma startswith_line_dashes o t :
+  startswith (o ++ nl ++ t) dashes3 = startswith o dashes3.
+Proof.
+  unfold dashes3, nl.
+  destruct o as [|a [|b [|c o']]]; cbn [app startswith].
+  - reflexivity.
+  - destruct (c_dash =? a); reflexivity.
+  - destruct (c_dash =? a); [|reflexivity]. destruct (c_dash =? b); reflexivity.
+  - rewrite !startswith_nil_r. reflexivity.
+Qed.
+
+Lemma sepfree_no_nl c l : sepfree (c :: l) = true -> (c =? c_nl) = false /\ sepfree l = true.
+Proof.
+  simpl. intro H. apply andb_true_iff in H as [H1 H2]. split; [|exact H2].
+  destruct (c =? c_nl) eqn:E; [|reflexivity]. apply N.eqb_eq in E. subst. discriminate.
+Qed.
+
+Lemma search_inside_line l : forall t i,
+  sepfree l = true ->
+  search_dashes (l ++ nl ++ t) false i = search_dashes t true (i + length l + 1)%nat.
+Proof.
+  induction l as [|c l IH]; intros t i H.
+  - simpl. f_equal. lia.
+  - apply sepfree_no_nl in H as [Hc Hl].
+    change ((c :: l) ++ nl ++ t) with (c :: (l ++ nl ++ t)). cbn [search_dashes andb].
+    rewrite Hc. rewrite IH by assumption. f_equal. simpl. lia.
+Qed.
+
+Lemma search_skip_line l t i :
+  sepfree l = true -> startswith l dashes3 = false ->
+  search_dashes (l ++ nl ++ t) true i = search_dashes t true (i + length l + 1)%nat.
+Proof.
+  intros Hsf Hst. destruct l as [|c l].
+  - simpl. f_equal. lia.
+  - apply sepfree_no_nl in Hsf as [Hc Hl].
+    pose proof (startswith_line_dashes (c :: l) t) as E. rewrite Hst in E.
+    change ((c :: l) ++ nl ++ t) with (c :: (l ++ nl ++ t)) in *.
+    cbn [search_dashes]. rewrite E. cbn [andb]. rewrite Hc.
+    rewrite search_inside_line by assumption. f_equal. simpl. lia.
+Qed.
+
+Lemma join_app_unlines a b : b <> [] -> join nl (a ++ b) = unlines a ++ join nl b.
+Proof.
+  intro Hb. induction a as [|x a IH]; [reflexivity|].
+  simpl app. destruct (a ++ b) as [|y ys] eqn:E.
+  - destruct a; destruct b; simpl in E; congruence.
+  - change (join nl (x :: y :: ys)) with (x ++ nl ++ join nl (y :: ys)).
+    rewrite IH. cbn [unlines]. rewrite <- !app_assoc. reflexivity.
+Qed.
+
+Lemma search_dashes_join os rest : forall i,
+  all_sepfree os = true -> forallb (fun o => negb (startswith o dashes3)) os = true ->
+  exists e, search_dashes (join nl (os ++ dashes3 :: rest)) true i
+            = Some ((i + length (unlines os))%nat, e).
+Proof.
+  induction os as [|o os IH]; intros i Hsf Hst.
+  - simpl app. exists (i + count_dashes (join nl (dashes3 :: rest)))%nat.
+    destruct rest; simpl; rewrite Nat.add_0_r; reflexivity.
+  - simpl in Hsf, Hst. apply andb_true_iff in Hsf as [Ho Hos].
+    apply andb_true_iff in Hst as [Hd Hds]. apply negb_true_iff in Hd.
+    rewrite (join_app_unlines (o :: os) (dashes3 :: rest)) by discriminate.
+    cbn [unlines]. rewrite <- !app_assoc.
+    rewrite (search_skip_line o _ i Ho Hd).
+    rewrite <- (join_app_unlines os (dashes3 :: rest)) by discriminate.
+    destruct (IH (i + length o + 1)%nat Hos Hds) as [e He]. exists e. rewrite He.
+    f_equal. f_equal. rewrite !app_length. simpl. lia.
+Qed.
+
+Lemma count_nl_unlines os : all_sepfree os = true -> count_occ_N c_nl (unlines os) = length os.
+Proof.
+  induction os as [|o os IH]; intro H; [reflexivity|].
+  simpl in H. apply andb_true_iff in H as [Ho Hos].
+  cbn [unlines]. 
+  assert (G : forall l t, sepfree l = true -> count_occ_N c_nl (l ++ nl ++ t) = S (count_occ_N c_nl t)).
+  { induction l as [|c l IHl]; intros t Hl; [reflexivity|].
+    apply sepfree_no_nl in Hl as [Hc Hl]. simpl. rewrite Hc. apply IHl. exact Hl. }
+  rewrite G by assumption. rewrite IH by assumption. reflexivity.
+Qed.
+
+Lemma dash_options os rest :
+  all_sepfree os = true -> all_sepfree rest = true ->
+  forallb (fun o => negb (startswith o dashes3)) os = true ->
+  parse_directive_options (unlines (dashes3 :: os ++ dashes3 :: rest)) = (rest, Some (unlines os)).
+Proof.
+  intros Hos Hrest Hst. unfold parse_directive_options.
+  assert (Hsf : all_sepfree (dashes3 :: os ++ dashes3 :: rest) = true).
+  { change (all_sepfree (dashes3 :: os ++ dashes3 :: rest))
+      with (sepfree dashes3 && all_sepfree (os ++ dashes3 :: rest)).
+    rewrite all_sepfree_app, Hos. simpl. exact Hrest. }
+  rewrite (split_lines_unlines _ Hsf).
+  replace (startswith (unlines (dashes3 :: os ++ dashes3 :: rest)) dashes3) with true by reflexivity.
+  cbn [tl].
+  destruct (search_dashes_join os rest 0 Hos Hst) as [e He]. rewrite He. cbn [Nat.add].
+  rewrite (join_app_unlines os (dashes3 :: rest)) by discriminate.
+  rewrite firstn_app, Nat.sub_diag, firstn_all. cbn [firstn]. rewrite app_nil_r.
+  rewrite (count_nl_unlines os Hos).
+  replace (skipn (S (length os)) (os ++ dashes3 :: rest)) with rest; [reflexivity|].
+  clear. induction os as [|o os IH]; [reflexivity|]. exact IH.
+Qed.
+
+Lemma split_dash (os X : list str) :
+  X <> [] -> all_sepfree os = true -> all_sepfree X = true ->
+  forallb (fun o => negb (startswith o dashes3)) os = true ->
+  parse_directive_text adm_class [] (unlines (opt_lines (ODash os true) ++ X))
+  = Ok {| p_args := []; p_optblock := Some (unlines os); p_body := X;
+          p_off := (length os + 3)%nat;
+          p_warn_split := false; p_warn_content := false |}.
+Proof.
+  intros Hne Hos HX Hst. unfold parse_directive_text. cbn [d_optspec adm_class opt_lines].
+  replace ((dashes3 :: os ++ [dashes3] ++ [[]]) ++ X) with (dashes3 :: os ++ dashes3 :: [] :: X)
+    by (simpl; rewrite <- app_assoc; reflexivity).
+  rewrite (dash_options os ([] :: X) Hos HX Hst).
+  assert (Hsf : all_sepfree (dashes3 :: os ++ dashes3 :: [] :: X) = true).
+  { change (all_sepfree (dashes3 :: os ++ dashes3 :: [] :: X))
+      with (sepfree dashes3 && all_sepfree (os ++ dashes3 :: [] :: X)).
+    rewrite all_sepfree_app, Hos. simpl. exact HX. }
+  rewrite (split_lines_unlines _ Hsf).
+  cbn [length]. rewrite app_length. cbn [length].
+  match goal with
+  | |- context [(S (?a + S (S ?b)) - S ?c)%nat] =>
+      replace (S (a + S (S b)) - S c)%nat with (a + 2)%nat by (change c with b; lia)
+  end.
+  destruct X; [congruence|]. simpl. repeat f_equal. lia.
+Qed.
